@@ -1,17 +1,26 @@
 import SlugModel.Pack
 import SlugModel.Lemmas.PathSegs
 /-!
-# Lemmas/PackInv — what the Pack walk emits
+# Lemmas/PackInv — invariants of the Pack walk
 
 `walkNode` / `walkChildren` / `visit` (Pack.lean) only ever change the state by *pushing* one
 entry together with a size increment.  `PackEmit` lists the four ways an entry is produced
-(directory, regular file, accepted symlink, dereferenced file); `pk_walk_emits` is the simultaneous
-induction on fuel showing that the final state is the initial one extended by a list of such
-emissions.  Everything in Props/C20 and most of Props/C05 is read off that list.
+(directory, regular file, accepted symlink, dereferenced file), each at an on-disk `path`
+satisfying a path predicate `G`; `pk_walk_emitsG` is the simultaneous induction on fuel showing
+that the final state is the initial one extended by a list of such emissions.  Props/C20 and most
+of Props/C05 are read off that list.  Further sections: `pack` unfolded once (`pk_pack_eq`), the
+walk only appends (`pk_walk_grows`), metadata accounting, where `stop illegal` comes from and how
+a `stop` travels up, independence of the working directory and of the spelling of the source
+(Props/C16), fuel of `resolveExternalLink` (Props/C19p).
 -/
 namespace Slug
 
-deriving instance DecidableEq for PState
+/-- `PState` equality is decidable (Pack.lean derives only `Repr`); named, so that it cannot clash
+with a derived instance elsewhere -/
+instance pkDecEqPState : DecidableEq PState := fun a b =>
+  if h : a.entries = b.entries ∧ a.pmeta = b.pmeta then
+    isTrue (by cases a; cases b; simp only at h; rw [h.1, h.2])
+  else isFalse (by intro e; apply h; rw [e]; exact ⟨rfl, rfl⟩)
 
 /-! ## the filesystem: `Lstat` of a non-link agrees with `Stat` -/
 
@@ -628,6 +637,109 @@ theorem PackEmits.bodiesDirect {G : Str → Prop} {fs : FS} {cwd : Str} {o : Pac
   · exact hm e h hs
   · exact (hL _ hk).bodyDirect hd hs
 
+/-! ## walk paths stay below the root (no dereferencing) -/
+
+/-- every component of every bound path is a plain name without a separator — what a real
+filesystem guarantees for directory entries -/
+def PackNamesOK (fs : FS) : Prop := ∀ e ∈ fs, ∀ c ∈ e.1, NameNS c
+
+theorem pk_insertSorted_mem (x : Str) (l : List Str) : ∀ y ∈ insertSorted x l, y = x ∨ y ∈ l := by
+  induction l with
+  | nil => intro y hy; simp [insertSorted] at hy; exact Or.inl hy
+  | cons z r ih =>
+    intro y hy
+    rw [insertSorted] at hy
+    split at hy
+    · simp only [List.mem_cons] at hy
+      rcases hy with h | h | h
+      · exact Or.inl h
+      · exact Or.inr (by simp [h])
+      · exact Or.inr (by simp [h])
+    · simp only [List.mem_cons] at hy
+      rcases hy with h | h
+      · exact Or.inr (by simp [h])
+      · rcases ih y h with h' | h'
+        · exact Or.inl h'
+        · exact Or.inr (by simp [h'])
+
+theorem pk_foldr_insertSorted_mem (l : List Str) : ∀ y ∈ l.foldr insertSorted [], y ∈ l := by
+  induction l with
+  | nil => intro y hy; cases hy
+  | cons x r ih =>
+    intro y hy
+    rw [List.foldr_cons] at hy
+    rcases pk_insertSorted_mem x _ y hy with h | h
+    · simp [h]
+    · exact List.mem_cons_of_mem _ (ih y h)
+
+theorem pk_dedup_mem (l : List Str) : ∀ (acc : List Str),
+    ∀ y ∈ l.foldl (fun acc n => if acc.contains n then acc else acc ++ [n]) acc, y ∈ acc ∨ y ∈ l := by
+  induction l with
+  | nil => intro acc y hy; exact Or.inl hy
+  | cons x r ih =>
+    intro acc y hy
+    rw [List.foldl_cons] at hy
+    rcases ih _ y hy with h | h
+    · split at h
+      · exact Or.inl h
+      · rcases List.mem_append.mp h with h' | h'
+        · exact Or.inl h'
+        · simp at h'; exact Or.inr (by simp [h'])
+    · exact Or.inr (List.mem_cons_of_mem _ h)
+
+theorem pk_readdir_names (fs : FS) (hfs : PackNamesOK fs) (p : PPath) : ∀ n ∈ fs.readdir p, NameNS n := by
+  intro n hn
+  unfold FS.readdir at hn
+  simp only at hn
+  have h1 := pk_foldr_insertSorted_mem _ n hn
+  rcases pk_dedup_mem _ [] n h1 with h2 | h2
+  · cases h2
+  · rw [List.mem_filterMap] at h2
+    obtain ⟨e, he, hs⟩ := h2
+    split at hs
+    · exact hfs e he n (List.mem_of_getLast? hs)
+    · cases hs
+
+/-- "an absolute clean path at or below `root`" -/
+def PkBelow (root : Str) (p : Str) : Prop := AbsClean p ∧ pathSegs root <+: pathSegs p
+
+theorem packPathInv_below (fs : FS) (o : PackOpts) (root : Str) (hfs : PackNamesOK fs)
+    (hd : o.dereference = false) : PackPathInv (PkBelow root) fs o := by
+  constructor
+  · intro path p n hg _ hn
+    have hname := pk_readdir_names fs hfs p n hn
+    refine ⟨pathJoin_absClean path n hg.1.1, ?_⟩
+    rw [pathSegs_pathJoin_name path n hg.1 hname]
+    exact List.IsPrefix.trans hg.2 (List.prefix_append _ _)
+  · intro h; rw [hd] at h; cases h
+
+theorem pk_root_absClean (fs : FS) (cwd src : Str) (hcwd : isAbs cwd = true) : AbsClean (pkRoot fs cwd src) := by
+  unfold pkRoot pathAbs
+  split
+  · rename_i h; exact pathClean_absClean _ h
+  · exact pathJoin_absClean _ _ hcwd
+
+theorem pk_pack_emits_below (fs : FS) (cwd : Str) (o : PackOpts) (src : Str) (hfs : PackNamesOK fs)
+    (hd : o.dereference = false) (hcwd : isAbs cwd = true) :
+    PackEmits (PkBelow (pkRoot fs cwd src)) fs cwd o (pkRoot fs cwd src) pkEmpty (pack fs cwd o src).1 := by
+  rw [pk_pack_eq]
+  split
+  · exact .refl _
+  · split
+    · exact .refl _
+    · rename_i n hn
+      rw [pkFinish_fst]
+      exact (pk_walk_emitsG _ fs cwd o _ _ (packPathInv_below fs o _ hfs hd) packFuel).1 _ _ _ _ _
+        ⟨pk_root_absClean fs cwd src hcwd, List.prefix_refl _⟩ hn
+
+theorem PackEmit.bodyBelow {G : Str → Prop} {fs : FS} {cwd : Str} {o : PackOpts} {root : Str} {e : Entry} {k : Nat}
+    (h : PackEmit G fs cwd o root e k) (hd : o.dereference = false) (hr : e.isRegular = true) :
+    ∃ path perm mt, G path ∧ fs.lstat path = .ok (.file perm mt e.body) := by
+  cases h with
+  | dir sub perm mt => exact absurd hr (by simp [Entry.isRegular, tDir, tReg, tRegA])
+  | file path sub perm mt content hg hl => exact ⟨path, perm, mt, hg, hl⟩
+  | symlink path sub target hg hl hv => exact absurd hr (by simp [Entry.isRegular, tReg, tRegA, tSymlink])
+  | deref path sub target absTarget perm mt content body hd' => rw [hd] at hd'; cases hd'
 /-! ## how a result travels up -/
 
 section
